@@ -298,6 +298,21 @@ func lit(s string) V {
 	case `{1}`:
 		return mset{`1`: int64(1)}
 	}
+	// the long-list family: decimal integers and lists of them
+	if n, err := strconv.ParseInt(s, 10, 64); err == nil {
+		return n
+	}
+	if strings.HasPrefix(s, "[") && strings.HasSuffix(s, "]") {
+		out := mlist{}
+		for _, f := range strings.Split(s[1:len(s)-1], ", ") {
+			n, err := strconv.ParseInt(f, 10, 64)
+			if err != nil {
+				panic("lit: unknown literal " + s)
+			}
+			out = append(out, n)
+		}
+		return out
+	}
 	panic("lit: unknown literal " + s)
 }
 
